@@ -307,8 +307,9 @@ func (this *BinaryEntropyDecoder) Read(block []byte) (int, error) {
 		szBytes := ReadVarInt(this.bitstream)
 
 		if szBytes > uint32(bufSize) {
-			// The encoder emits at most one 32 bit word per encoded bit
-			if uint64(szBytes) > 32*uint64(chunkSize) {
+			// Same limit as the FPAQ decoder: a chunk is never expected to
+			// double in size (bounds the allocation below)
+			if uint64(szBytes) >= 2*uint64(length) {
 				return startChunk, errors.New("Binary entropy codec: Invalid bitstream")
 			}
 
